@@ -64,7 +64,7 @@ CHECKS = {
  },
  "C06": {
   "technique": "static: Circuit.add_subcircuit / fill_blackbox (methods, self = reference model) and tx.strip_blackboxes evaluated from source by the checker's own AST evaluator (cgstatic.minieval) over reference model objects (cgstatic.refmodel); the package is never imported or run by CPython, no solver; functional-substitution oracle; E2 effect dataflow rules (child neither mutated nor retained; no function edits a shared BlackBox definition's pin sets)",
-  "text": "On model parents/children (connected and unconnected io, child output that is an input, constants, sub-blackboxes, both strip_io settings): spliced nodes compute the child's function of the attached nets, untouched nodes keep theirs, io sets and registry bookkeeping are as documented, the child is unchanged, rejected calls raise ValueError (and merge nothing where checked before merging); strip_blackboxes exposes pins as inst_pin io, deletes ignored pins, keeps every other function.",
+  "text": "On model parents/children (connected and unconnected io, child output that is an input, constants, sub-blackboxes, both strip_io settings): spliced nodes compute the child's function of the attached nets, untouched nodes keep theirs, io sets and registry bookkeeping are as documented, the child is unchanged, rejected calls raise ValueError (and merge nothing where checked before merging); strip_blackboxes exposes pins as inst_pin io, deletes ignored pins, keeps every other function. Call histories about composition (the same child object instantiated again after an in-place edit, rejected splices beside nodes that share the instance prefix, fills, self-splices) are replayed on the repository's own Circuit class evaluated from source against the documented semantics (C06.H).",
   "design_ref": 'DESIGN.md section 3 C06',
   "note": 'Trusted: reference DiGraph model of relabel_nodes / update; families only.',
  },
